@@ -1,7 +1,8 @@
 //! Miri leg of C27 (thorough tier, optional): the wake-up protocol of
-//! `dfir_rs::scheduled::context` on real `std` threads, *without* yield hooks, interpreted by Miri
-//! with its seeded scheduler (`-Zmiri-many-seeds`, `-Zmiri-preemption-rate`) and its weak-memory
-//! emulation (store buffers for the `Relaxed` flag accesses).
+//! `dfir_rs::scheduled::context` on real `std` threads, interpreted by Miri with its seeded scheduler
+//! (`-Zmiri-many-seeds`, `-Zmiri-preemption-rate`) and its weak-memory emulation (store buffers for
+//! the `Relaxed` flag accesses). Phase 1 runs without any forced switch; phase 2 repeats the
+//! scenarios with `std::thread::yield_now()` at every dfir_rs yield point.
 //!
 //! Oracle: a lost wake-up leaves the runner thread parked forever while the main thread joins it —
 //! Miri reports "the evaluated program deadlocked". No timeouts, no clocks.
@@ -146,8 +147,29 @@ fn scenario_b(n_senders: u32, items_each: u32) -> u32 {
     runner.join().unwrap()
 }
 
-fn main() {
+/// Phase 2 switch: when set, every dfir_rs yield point (between the atomic steps of wake_by_ref /
+/// run_tick / run_available / run) calls `std::thread::yield_now()`, which makes Miri's scheduler
+/// switch threads exactly there (no happens-before edge is added by a yield).
+static FORCE_SWITCH: std::sync::atomic::AtomicBool = std::sync::atomic::AtomicBool::new(false);
+
+fn hook(_id: u32) {
+    if FORCE_SWITCH.load(std::sync::atomic::Ordering::Relaxed) {
+        std::thread::yield_now();
+    }
+}
+
+fn all_scenarios() -> (u32, u32) {
     let t = scenario_a(1, 1, false) + scenario_a(2, 1, true) + scenario_a(1, 2, false) + scenario_a(2, 2, false);
     let n = scenario_b(1, 2) + scenario_b(2, 2);
-    println!("MIRI-LEG-OK ticks={t} items={n}");
+    (t, n)
+}
+
+fn main() {
+    dfir_rs::scheduled::verif_hooks::set_yield_hook(hook);
+    // phase 1: no forced switches (Miri's seeded preemption only)
+    let (t1, n1) = all_scenarios();
+    // phase 2: forced switch at every yield point, on top of Miri's preemption
+    FORCE_SWITCH.store(true, std::sync::atomic::Ordering::Relaxed);
+    let (t2, n2) = all_scenarios();
+    println!("MIRI-LEG-OK ticks={t1}+{t2} items={n1}+{n2}");
 }
